@@ -146,6 +146,9 @@ func (x *cliExec) routerSide() {
 				e.X, _ = wamp.AsString(m.Options["mode"])
 			case *wamp.Yield:
 				e.Req = int(m.Request)
+				if p, _ := m.Options["progress"].(bool); p {
+					e.X = "p"
+				}
 			case *wamp.Error:
 				e.Req, e.X = int(m.Request), string(m.Error)
 			case *wamp.Goodbye:
@@ -235,17 +238,28 @@ func (x *cliExec) invHandler(ctx context.Context, inv *wamp.Invocation) client.I
 		return client.InvokeResult{Args: wamp.List{"hostile"}}
 	}
 	x.cb("invstart", id, 0)
-	select {
-	case how := <-ch:
-		if how == "error" {
-			return client.InvokeResult{Err: "app.error"}
+	for {
+		select {
+		case how := <-ch:
+			switch how {
+			case "error":
+				return client.InvokeResult{Err: "app.error"}
+			case "prog":
+				// a progressive result from the running handler
+				ok := 0
+				if err := x.c.SendProgress(ctx, wamp.List{id}, nil); err == nil {
+					ok = 1
+				}
+				x.cb("sendprog", id, ok)
+				continue
+			}
+			return client.InvokeResult{Args: wamp.List{id}}
+		case <-ctx.Done():
+			x.cb("invctx", id, 0)
+			return client.InvocationCanceled
+		case <-x.quit:
+			return client.InvocationCanceled
 		}
-		return client.InvokeResult{Args: wamp.List{id}}
-	case <-ctx.Done():
-		x.cb("invctx", id, 0)
-		return client.InvocationCanceled
-	case <-x.quit:
-		return client.InvocationCanceled
 	}
 }
 
@@ -434,16 +448,23 @@ func (x *cliExec) step(in CliInput) {
 		if in.Tmo > 0 {
 			d["timeout"] = in.Tmo
 		}
+		if in.Prog {
+			d["receive_progress"] = true
+		}
 		x.toClient(&wamp.Invocation{Request: wamp.ID(in.Inv), Registration: wamp.ID(in.Reg), Details: d, Arguments: wamp.List{in.Inv}})
 	case "intr":
 		x.toClient(&wamp.Interrupt{Request: wamp.ID(in.Inv), Options: wamp.Dict{"mode": "killnowait"}})
-	case "release":
+	case "release", "sendprog":
+		how := in.How
+		if in.Op == "sendprog" {
+			how = "prog"
+		}
 		x.mu.Lock()
 		ch := x.release[in.Inv]
 		x.mu.Unlock()
 		if ch != nil {
 			select {
-			case ch <- in.How:
+			case ch <- how:
 			default:
 			}
 		}
